@@ -405,26 +405,29 @@ pub fn c17_key_of(path: &str) -> Pubkey {
 /// `#[validate(arg = Seeds(..))]` attribute builds - each row mirrors that attribute, written out by hand).  The IDL's
 /// find-seeds of the same account, resolved over the same keys, have to give the same byte strings: a client derives the
 /// address from the IDL, `Seeded` validation accepts only the address of these.
-pub fn c17_runtime_seeds() -> Vec<(&'static str, &'static str, Vec<Vec<u8>>)> {
+pub fn c17_runtime_seeds() -> Vec<(&'static str, &'static str, Vec<Vec<u8>>, [u8; 32])> {
     let k = c17_key_of;
     fn own<S: GetSeeds>(s: S) -> Vec<Vec<u8>> {
         s.seeds().iter().map(|x| x.to_vec()).collect()
     }
     let vault = |owner: &str| own(VaultSeeds { owner: k(owner) });
     let config = |admin: &str| own(ConfigSeeds { admin: k(admin) });
+    let own_id = <PdaProgram as StarFrameProgram>::ID.to_bytes();
+    // the program the address is derived under: the seeded account's `P` (`Seeded<T, S, P>`), this program by default
+    let sys_id = <System as StarFrameProgram>::ID.to_bytes();
     vec![
-        ("OpenLedger", "ledger", own(LedgerSeeds { admin: k("admin"), owner: k("owner"), series: LEDGER_SERIES })),
-        ("MoveFunds", "admin_vault", vault("owner")),
-        ("MoveFunds", "source vault", vault("source owner")),
-        ("MoveFunds", "source config", config("admin")),
-        ("MoveFunds", "dest vault", vault("dest owner")),
-        ("MoveFunds", "dest config", config("admin")),
-        ("MoveFunds", "receipt", own(ReceiptSeeds { from: k("source vault"), to: k("dest vault") })),
-        ("Settle", "legs source vault", vault("legs source owner")),
-        ("Settle", "legs source config", config("admin")),
-        ("Settle", "legs dest vault", vault("legs dest owner")),
-        ("Settle", "legs dest config", config("admin")),
-        ("Settle", "legs escrow", own(EscrowSeeds { owner: k("legs source owner"), admin: k("admin") })),
+        ("OpenLedger", "ledger", own(LedgerSeeds { admin: k("admin"), owner: k("owner"), series: LEDGER_SERIES }), own_id),
+        ("MoveFunds", "admin_vault", vault("owner"), own_id),
+        ("MoveFunds", "source vault", vault("source owner"), own_id),
+        ("MoveFunds", "source config", config("admin"), own_id),
+        ("MoveFunds", "dest vault", vault("dest owner"), own_id),
+        ("MoveFunds", "dest config", config("admin"), own_id),
+        ("MoveFunds", "receipt", own(ReceiptSeeds { from: k("source vault"), to: k("dest vault") }), sys_id),
+        ("Settle", "legs source vault", vault("legs source owner"), own_id),
+        ("Settle", "legs source config", config("admin"), own_id),
+        ("Settle", "legs dest vault", vault("legs dest owner"), own_id),
+        ("Settle", "legs dest config", config("admin"), own_id),
+        ("Settle", "legs escrow", own(EscrowSeeds { owner: k("legs source owner"), admin: k("admin") }), own_id),
     ]
 }
 
